@@ -114,8 +114,9 @@ def one_expr(draw, g, env):
 
 
 @st.composite
-def cases(draw):
-    env = draw(gen.envs(max_vectors=2, max_matrices=1))
+def cases(draw, tier="quick"):
+    big = tier == "thorough"
+    env = draw(gen.envs(max_vectors=2, max_matrices=1, max_vec=10 if big else 6, max_mat=4 if big else 3))
     g = gen.G(draw, env, gen.Cfg())
     m = draw(st.sampled_from([1, 1, 1, 2, 3, 4]))
     exprs, strata = [], []
@@ -136,7 +137,7 @@ def cases(draw):
 
 
 def strategy(tier):
-    return cases()
+    return cases(tier)
 
 
 def sample_repr(case):
